@@ -377,6 +377,11 @@ fn infer_source_field(
         return None;
     }
 
+    // and none of them is ignored
+    if parsed_fields.data.fields.len() != 2 {
+        return None;
+    }
+
     // no source field was specified/inferred
     if parsed_fields.source.is_some() {
         return None;
